@@ -76,6 +76,19 @@ fn tx_script(kind: &str, rng: &mut Rng, t: usize, tag: &mut u64, ps: u64) -> TxS
                 }
             }
         }
+        "large-bucket-fill-drop" => {
+            // a bucket of a few hundred pages is filled, dropped, refilled ...: the free list spans
+            // several pages whenever the bucket is gone (also at the moment the file is closed)
+            if t % 2 == 0 {
+                ops.push(Op::GetOrCreate { h: 0, k: K::lit(b"large"), how: How::Slice });
+                for j in 0..220 {
+                    put(&mut ops, 1, j, ps as usize - 130 + (t % 3) * 8);
+                }
+            } else {
+                ops.push(Op::DeleteB { h: 0, k: K::lit(b"large"), how: How::Slice });
+                put(&mut ops, 0, t % nkeys, 60);
+            }
+        }
         "bucket-create-delete-overflow" => {
             // sub-buckets holding multi-page values: deleting them must return the overflow pages too
             let del = t % 4;
@@ -128,6 +141,7 @@ pub struct Outcome {
     pub violations: Vec<(String, String)>,
     pub inconclusive: Option<String>,
     pub fileck_runs: u64,
+    pub multi_page_freelist: bool,
 }
 
 struct State<'c> {
@@ -166,6 +180,9 @@ impl<'c> State<'c> {
                 format!("after transaction {}: {}", t, rep.errors[0]),
             ));
             return Ok(false);
+        }
+        if rep.freelist_run.len() > 1 {
+            o.multi_page_freelist = true;
         }
         let live = rep.reachable.len() as u64 + rep.freelist_run.len() as u64;
         o.max_live = o.max_live.max(live);
@@ -211,6 +228,7 @@ pub fn run_case(c: &Case, path: &std::path::Path) -> Outcome {
             violations: vec![],
             inconclusive: None,
             fileck_runs: 0,
+            multi_page_freelist: false,
         },
     };
     let r = util::catch(|| -> Result<(), String> {
@@ -428,6 +446,11 @@ pub fn cases(ctx: &Ctx) -> Vec<Case> {
             }
         }
     }
+    // multi-page free lists, also at the moment the file is closed and reopened
+    for reopen in [0usize, 1, 3, 4] {
+        i += 1;
+        v.push(Case { kind: "large-bucket-fill-drop".to_string(), pagesize: 1024, txs: (t / 3).clamp(60, 400), reopen_every: reopen, reader: (0, 0), handover: false, readers: vec![], seed: ctx.seed.wrapping_mul(733).wrapping_add(i) });
+    }
     // several readers of different ages closing in every order; and two readers of the same snapshot
     let a = t / 10;
     let orders: [[usize; 3]; 6] = [[0, 1, 2], [0, 2, 1], [1, 0, 2], [1, 2, 0], [2, 0, 1], [2, 1, 0]];
@@ -508,6 +531,9 @@ pub fn run(ctx: &Ctx) -> Shard {
         shard.count("fileck_conservation_checks", o.fileck_runs);
         shard.count("pages_allocated_below_previous_hwm(reuse)", o.reuse);
         shard.count("max_hwm", 0);
+        if o.multi_page_freelist {
+            shard.count("runs_with_a_multi_page_free_list", 1);
+        }
         if c.reopen_every > 0 {
             shard.count("runs_with_periodic_reopen", 1);
         }
